@@ -23,8 +23,8 @@ func detBytes(label string, n int) []byte {
 func TestC04Stateful(t *testing.T) {
 	theT = t
 	col := ev.New("C04", "stateful",
-		"rapid state machine over put/putNamed/put(meta)/delete/setEACL on 3 owners and a pool of 12 blobs (version-field offsets 0,1,5,200; names from a 2-name pool, several blobs share a name), incl. re-put of a live container, delete of a missing one, put after delete, name reuse after deletion, too short blobs, invalid names and calls without the Alphabet; after every step the whole read API, NNS TXT records of every alias domain, the raw storage traces and the notifications of the transaction are compared with a registry model; non-trivial = a delete followed by a later operation on the same id or the same name",
-		"fees are 0 (money is C05)", "a container's name and owner are functions of its blob (the Inner Ring derives them from the blob)", "alias domains are registered by the Container contract itself")
+		"rapid state machine over put/putNamed/put(meta)/delete/setEACL on 3 owners and a pool of 12 blobs (version-field offsets 0,1,5,200; names from a 3-name pool, several blobs share a name; in half of the cases the alias domain of one name is registered by the committee in advance instead of by the contract), incl. re-put of a live container, delete of a missing one, put after delete, name reuse after deletion, too short blobs, invalid names and calls without the Alphabet; after every step the whole read API, NNS TXT records of every alias domain, the raw storage traces and the notifications of the transaction are compared with a registry model; non-trivial = a delete followed by a later operation on the same id or the same name",
+		"fees are 0 (money is C05)", "a container's name and owner are functions of its blob (the Inner Ring derives them from the blob)", "alias domains are registered by the Container contract itself or, for one name, by the committee in advance (its transactions then carry the committee witness too)")
 	runRapid(t, col, func(rt *rapid.T, h *ev.History) {
 		n := rapid.SampledFrom([]int{1, 1, 3}).Draw(rt, "n")
 		w := newCntWorld(n, h, 0, 0)
@@ -32,13 +32,26 @@ func TestC04Stateful(t *testing.T) {
 		m := newRegModel()
 		// blob pool
 		var pool []*cntBlob
-		names := []string{"", "", "alpha", "beta"}
+		names := []string{"", "", "alpha", "beta", "gamma"}
 		i := 0
 		for owner := 0; owner < 3; owner++ {
 			for _, off := range []int{0, 1, 5, 200} {
 				pool = append(pool, w.mkBlob(owner, off, i, names[i%len(names)]))
 				i++
 			}
+		}
+		// the documented alternative to self-registration: the committee registers the alias domain in advance
+		// (no records yet); transactions that touch it carry the committee's witness as well, because the
+		// domain's records are then the committee's to change
+		preGamma := rapid.Bool().Draw(rt, "gammaPreRegisteredByCommittee")
+		if preGamma {
+			o := w.c.Invoke(w.c.Both(), w.nns, "register", "gamma.container", w.c.Committee.ScriptHash(), "ops@nspcc.ru", int64(3600), int64(600), int64(315360000), int64(3600))
+			if b, ok := o.Bool(); !o.Halt || !ok || !b {
+				panic(chainkit.HarnessError{Msg: "c04: pre-registration of gamma.container: " + o.String()})
+			}
+			m.doms["gamma.container"] = true
+			h.Op("the committee registers gamma.container in advance")
+			h.Mark("alias-domain-pre-registered")
 		}
 		deletedIDs := map[string]bool{}
 		deletedNames := map[string]bool{}
@@ -53,6 +66,9 @@ func TestC04Stateful(t *testing.T) {
 			switch kind {
 			case "put":
 				b := rapid.SampledFrom(pool).Draw(rt, "blob")
+				if preGamma && b.name == "gamma" && withAlpha {
+					signers = w.c.Both()
+				}
 				sigv := detBytes(fmt.Sprintf("sig-%d", rapid.IntRange(0, 2).Draw(rt, "sig")), 64)
 				pub := w.owners[b.owner].Account().PublicKey().Bytes()
 				var token []byte
@@ -133,6 +149,9 @@ func TestC04Stateful(t *testing.T) {
 			case "delete":
 				b := rapid.SampledFrom(pool).Draw(rt, "blob")
 				k := hex(b.id)
+				if l := m.live[k]; preGamma && l != nil && l.alias == "gamma.container" && withAlpha {
+					signers = w.c.Both()
+				}
 				o := w.c.Invoke(signers, w.cnt, "delete", b.id, detBytes("dsig", 64), []byte{})
 				h.Op("delete %s alphabet=%v -> %s", b.label, withAlpha, o)
 				m.seen[k] = b
